@@ -1,5 +1,6 @@
 import Dmn.Model.DecisionTable
 import Dmn.Lemmas.DNum
+import Dmn.Lemmas.DTValue
 
 /-!
 # Helper lemmas about the decision-table model (used by `Props/C03.lean`)
@@ -518,6 +519,170 @@ theorem maxNum_spec (n : DNum) (ns : List DNum) :
       · subst hx; exact DNum.le_trans' hm0.2.1 h0
       · subst hx; exact DNum.le_trans' hm0.1 h0
       · exact hb x (by simp [hx])
+
+/-! ## C< / C> over strings; the aggregators and the order of the rules -/
+
+/-- "not greater": the order of strings `minStr` / `maxStr` compare with. -/
+theorem strLe_trans {a b c : List Char} (h1 : strLt b a = false) (h2 : strLt c b = false) : strLt c a = false := by
+  cases h : strLt c a with
+  | false => rfl
+  | true =>
+    exfalso
+    by_cases hab : a = b
+    · subst hab; rw [h] at h2; cases h2
+    · have hab' : strLt a b = true := strLt_trichotomy b a h1 (fun e => hab e.symm)
+      have := strLt_trans c a b h hab'
+      rw [this] at h2; cases h2
+
+/-- `minStr` is the minimum: a member, and no member is less. -/
+theorem minStr_spec (s : List Char) (ss : List (List Char)) :
+    Spec.minStr s ss ∈ s :: ss ∧ ∀ x ∈ s :: ss, strLt x (Spec.minStr s ss) = false := by
+  induction ss generalizing s with
+  | nil => simpa [Spec.minStr] using strLt_irrefl s
+  | cons v vs ih =>
+    simp only [Spec.minStr, List.foldl_cons]
+    have hm0 : strLt v (if strLt v s then v else s) = false ∧ strLt s (if strLt v s then v else s) = false ∧
+        ((if strLt v s then v else s) = v ∨ (if strLt v s then v else s) = s) := by
+      split
+      · rename_i h; exact ⟨strLt_irrefl _, strLt_asymm _ _ h, Or.inl rfl⟩
+      · rename_i h; exact ⟨by simpa using h, strLt_irrefl _, Or.inr rfl⟩
+    generalize (if strLt v s then v else s) = m0 at hm0
+    have := ih m0
+    simp only [Spec.minStr] at this
+    obtain ⟨hm, hb⟩ := this
+    constructor
+    · simp only [List.mem_cons] at hm ⊢
+      rcases hm with hm | hm
+      · rw [hm]; rcases hm0.2.2 with h | h <;> simp [h]
+      · right; right; exact hm
+    · intro x hx
+      simp only [List.mem_cons] at hx
+      have h0 := hb m0 (by simp)
+      rcases hx with hx | hx | hx
+      · subst hx; exact strLe_trans h0 hm0.2.1
+      · subst hx; exact strLe_trans h0 hm0.1
+      · exact hb x (by simp [hx])
+
+/-- `maxStr` is the maximum: a member, and no member is greater. -/
+theorem maxStr_spec (s : List Char) (ss : List (List Char)) :
+    Spec.maxStr s ss ∈ s :: ss ∧ ∀ x ∈ s :: ss, strLt (Spec.maxStr s ss) x = false := by
+  induction ss generalizing s with
+  | nil => simpa [Spec.maxStr] using strLt_irrefl s
+  | cons v vs ih =>
+    simp only [Spec.maxStr, List.foldl_cons]
+    have hm0 : strLt (if strLt s v then v else s) v = false ∧ strLt (if strLt s v then v else s) s = false ∧
+        ((if strLt s v then v else s) = v ∨ (if strLt s v then v else s) = s) := by
+      split
+      · rename_i h; exact ⟨strLt_irrefl _, strLt_asymm _ _ h, Or.inl rfl⟩
+      · rename_i h; exact ⟨by simpa using h, strLt_irrefl _, Or.inr rfl⟩
+    generalize (if strLt s v then v else s) = m0 at hm0
+    have := ih m0
+    simp only [Spec.maxStr] at this
+    obtain ⟨hm, hb⟩ := this
+    constructor
+    · simp only [List.mem_cons] at hm ⊢
+      rcases hm with hm | hm
+      · rw [hm]; rcases hm0.2.2 with h | h <;> simp [h]
+      · right; right; exact hm
+    · intro x hx
+      simp only [List.mem_cons] at hx
+      have h0 := hb m0 (by simp)
+      rcases hx with hx | hx | hx
+      · subst hx; exact strLe_trans hm0.2.1 h0
+      · subst hx; exact strLe_trans hm0.1 h0
+      · exact hb x (by simp [hx])
+
+def isNum : DTValue → Bool
+  | .num _ => true
+  | _ => false
+
+def isStr : DTValue → Bool
+  | .str _ => true
+  | _ => false
+
+def numsOf (vs : List DTValue) : List DNum :=
+  vs.filterMap (fun v => match v with | .num n => some n | _ => none)
+
+def strsOf (vs : List DTValue) : List (List Char) :=
+  vs.filterMap (fun v => match v with | .str s => some s | _ => none)
+
+theorem allNums_closed (vs : List DTValue) :
+    Spec.allNums vs = if vs.all isNum then some (numsOf vs) else none := by
+  induction vs with
+  | nil => rfl
+  | cons v vs ih =>
+    cases v <;> simp only [Spec.allNums, List.all_cons, isNum, Bool.false_and, Bool.true_and, Bool.false_eq_true, if_false]
+    rw [ih]
+    split <;> simp [numsOf, List.filterMap_cons]
+
+theorem allStrs_closed (vs : List DTValue) :
+    Spec.allStrs vs = if vs.all isStr then some (strsOf vs) else none := by
+  induction vs with
+  | nil => rfl
+  | cons v vs ih =>
+    cases v <;> simp only [Spec.allStrs, List.all_cons, isStr, Bool.false_and, Bool.true_and, Bool.false_eq_true, if_false]
+    rw [ih]
+    split <;> simp [strsOf, List.filterMap_cons]
+
+/-- The minimum of a non-empty list of numbers does not depend on the order of the list. -/
+theorem minNum_perm {n m : DNum} {ns ms : List DNum} (h : (n :: ns).Perm (m :: ms)) :
+    Spec.minNum n ns = Spec.minNum m ms := by
+  obtain ⟨h1, h2⟩ := minNum_spec n ns
+  obtain ⟨h3, h4⟩ := minNum_spec m ms
+  exact DNum.le_antisymm' (h2 _ (h.mem_iff.mpr h3)) (h4 _ (h.mem_iff.mp h1))
+
+theorem maxNum_perm {n m : DNum} {ns ms : List DNum} (h : (n :: ns).Perm (m :: ms)) :
+    Spec.maxNum n ns = Spec.maxNum m ms := by
+  obtain ⟨h1, h2⟩ := maxNum_spec n ns
+  obtain ⟨h3, h4⟩ := maxNum_spec m ms
+  exact DNum.le_antisymm' (h4 _ (h.mem_iff.mp h1)) (h2 _ (h.mem_iff.mpr h3))
+
+theorem minStr_perm {s r : List Char} {ss rs : List (List Char)} (h : (s :: ss).Perm (r :: rs)) :
+    Spec.minStr s ss = Spec.minStr r rs := by
+  obtain ⟨h1, h2⟩ := minStr_spec s ss
+  obtain ⟨h3, h4⟩ := minStr_spec r rs
+  have a := h2 _ (h.mem_iff.mpr h3)
+  have b := h4 _ (h.mem_iff.mp h1)
+  by_cases he : Spec.minStr s ss = Spec.minStr r rs
+  · exact he
+  · have := strLt_trichotomy _ _ b he
+    rw [this] at a; cases a
+
+theorem maxStr_perm {s r : List Char} {ss rs : List (List Char)} (h : (s :: ss).Perm (r :: rs)) :
+    Spec.maxStr s ss = Spec.maxStr r rs := by
+  obtain ⟨h1, h2⟩ := maxStr_spec s ss
+  obtain ⟨h3, h4⟩ := maxStr_spec r rs
+  have a := h2 _ (h.mem_iff.mpr h3)
+  have b := h4 _ (h.mem_iff.mp h1)
+  by_cases he : Spec.maxStr s ss = Spec.maxStr r rs
+  · exact he
+  · have := strLt_trichotomy _ _ a he
+    rw [this] at b; cases b
+
+/-- `Spec.min` / `Spec.max` do not depend on the order of the values. -/
+theorem specMin_perm {vs ws : List DTValue} (h : vs.Perm ws) : Spec.min vs = Spec.min ws ∧ Spec.max vs = Spec.max ws := by
+  have hn : vs.all isNum = ws.all isNum := h.all_eq
+  have hs : vs.all isStr = ws.all isStr := h.all_eq
+  have pn : (numsOf vs).Perm (numsOf ws) := h.filterMap _
+  have ps : (strsOf vs).Perm (strsOf ws) := h.filterMap _
+  simp only [Spec.min, Spec.max, allNums_closed, allStrs_closed, ← hn, ← hs]
+  have key : ∀ {α : Type} {a b : List α}, a.Perm b → (a = [] ∧ b = []) ∨ ∃ x xs y ys, a = x :: xs ∧ b = y :: ys := by
+    intro α a b hp
+    cases a with
+    | nil => left; exact ⟨rfl, hp.nil_eq.symm ▸ rfl⟩
+    | cons x xs =>
+      cases b with
+      | nil => exact absurd hp.eq_nil (by simp)
+      | cons y ys => right; exact ⟨x, xs, y, ys, rfl, rfl⟩
+  cases hA : vs.all isNum <;> cases hB : vs.all isStr <;>
+    (try simp only [Bool.false_eq_true, if_false, if_true]) <;>
+    rcases key pn with ⟨e1, e2⟩ | ⟨x, xs, y, ys, e1, e2⟩ <;>
+    rcases key ps with ⟨f1, f2⟩ | ⟨s, ss, r, rs, f1, f2⟩ <;>
+    (try rw [e1, e2] at pn) <;> (try rw [f1, f2] at ps) <;>
+    (try simp only [e1, e2, f1, f2]) <;>
+    (try rw [minNum_perm pn, maxNum_perm pn]) <;>
+    (try rw [minStr_perm ps, maxStr_perm ps]) <;>
+    first | exact ⟨rfl, rfl⟩ | exact ⟨trivial, trivial⟩ | trivial
 
 /-! ## Well-formed tables -/
 
